@@ -1,4 +1,5 @@
 -- C14: abstract theorems (any parser family with the incremental law) and their instantiation
 -- with the transcribed package decoders (Model/Codec/Pkg.lean)
 import Dblib.Props.C14.Abstract
+import Dblib.Props.C14.EndToEnd
 import Dblib.Props.C14.Concrete
